@@ -368,18 +368,16 @@ Definition extract_block_quote (h : bhandler) (m : mresult) (st : bstate) (rf : 
     do (st2, rf2, t2, e) <- quote_lazy_loop h (S (length src)) st1 rf text false;
     Ok (st2, rf2, expand_tab t2, e).
 
-Definition insert_before_last (l : list btok) (t : btok) : list btok :=
-  match rev l with
-  | [] => [t]
-  | x :: r => rev r ++ [t; x]
-  end.
+Definition insert_at (l : list btok) (i : nat) (t : btok) : list btok := firstn i l ++ t :: skipn i l.
 
+(* the quote is put in front of everything the interrupting block appended while the quote was extracted *)
 Definition handle_quote (h : bhandler) (m : mresult) (st : bstate) (rf : refs) : res bres :=
+  let idx := length (s_tokens st) in
   do (st2, rf2, text, e) <- extract_block_quote h m st rf;
   do (ch, rf3) <- parse_child h st2 text rf2;
   let tok := BQuote ch in
   match truthy e with
-  | Some p => Ok (set_tokens st2 (insert_before_last (s_tokens st2) tok), rf3, Some p)
+  | Some p => Ok (set_tokens st2 (insert_at (s_tokens st2) idx tok), rf3, Some p)
   | None => Ok (append_token st2 tok, rf3, Some (s_cursor st2))
   end.
 
@@ -463,8 +461,6 @@ Fixpoint item_loop (h : bhandler) (iters : nat) (sc : list (brule * rx)) (contin
           end
       end
     end.
-
-Definition insert_at (l : list btok) (i : nat) (t : btok) : list btok := firstn i l ++ t :: skipn i l.
 
 (* the while-groups loop of parse_list *)
 Fixpoint items_loop (h : bhandler) (iters : nat) (bullet : Z) (groups : str * str * str) (st : bstate) (rf : refs)
